@@ -1,0 +1,42 @@
+//go:build verif
+
+// Contracts for govc (contract-based deductive verification, /verif). Comment-only file:
+// it is compiled only under the build tag "verif" and contains no code.
+
+package mod_prison
+
+// ---- C53: the per-key access counter ----
+
+//@ func (*AccessCounter).reset
+//@   props C53
+//@   nopanic nil
+//@   requires f != nil
+//@   modifies f.count, f.startTime
+//@   ensures[a_new_window_starts_empty] f.count == 0
+
+//@ func (*AccessCounter).IncAndCheck
+//@   props C53
+//@   nopanic nil
+//@   requires c != nil && checkPeriodNs >= 0 && checkPeriodNs <= 2305843009213693952 && c.startTime >= 0 && c.startTime <= 2305843009213693952 && c.count >= 0 && c.count < 2147483647
+//@   note period and start time are assumed below 2^61 and the counter below 2^31-1 so that the window arithmetic does not wrap
+//@   modifies c.count, c.startTime
+//@   assert[within_the_window_the_request_is_counted] at "return count > threshold" :: old(c.startTime) + checkPeriodNs >= now ==> count == old(c.count) + 1
+//@   assert[within_the_window_the_window_start_is_kept] at "return count > threshold" :: old(c.startTime) + checkPeriodNs >= now ==> stime == old(c.startTime)
+//@   assert[within_the_window_the_rest_of_the_window_is_reported] at "return count > threshold" :: old(c.startTime) + checkPeriodNs >= now ==> stime + checkPeriodNs - now >= 0
+//@   assert[after_the_window_counting_starts_again_with_this_request] at "return count > threshold" :: old(c.startTime) + checkPeriodNs < now ==> count == 1
+//@   ensures[the_counter_holds_the_count] (old(c.startTime) + checkPeriodNs >= 0 ==> true) && c.count >= 1
+//@   ensures[blocked_exactly_when_the_count_exceeds_the_threshold] result0 == (c.count > threshold)
+
+//@ func NewAccessCounter
+//@   props C53
+//@   nopanic nil
+//@   modifies nothing
+//@   ensures[a_new_counter_is_empty] result0 != nil && result0.count == 0
+
+//@ func (*prisonRule).recordAccess
+//@   props C53
+//@   requires r != nil
+//@   modifies *
+//@   assume[the_dictionary_holds_live_counters_with_sane_times] at "f.IncAndCheck(" :: f != nil && r.checkPeriodNs >= 0 && r.checkPeriodNs <= 2305843009213693952 && f.startTime >= 0 && f.startTime <= 2305843009213693952 && f.count >= 0 && f.count < 2147483647
+//@   note the access dictionary is assumed to return the counters stored in it (non-nil), with clock readings and periods below 2^61 ns and fewer than 2^31-1 hits per window
+//@   assert[a_key_is_jailed_only_when_its_counter_exceeded_the_threshold] at "r.prisonDict.Add(" :: block && f != nil && f.count > r.threshold
